@@ -174,9 +174,65 @@ impl Prop for C04Prop {
 /// the enumeration corpus shared by the FILE-engine properties: every truncation, every
 /// (quick: every third) single-bit flip without re-seal, and every such flip inside a message
 /// body with the CRC re-sealed, over a small base set
+/// list responses whose value list declares more entries than follow (re-sealed): minimal
+/// 8-byte entries and ordinary ones, as last message and followed by another one
+pub fn declared_count_corpus(prop: &str, extra_polls: usize) -> Vec<Scenario> {
+    use crate::smlref::{RBody, REntry, RMsg, RValue};
+    let mut v = Vec::new();
+    let mut rng = Rng::new(0xC04D);
+    let minimal = REntry { name: Hx(vec![]), status: None, val_time: None, unit: None, scaler: None, value: RValue::Bytes(Hx(vec![])), sig: None };
+    for k in 0..7usize {
+        for shape in 0..3 {
+            let mut entries: Vec<REntry> = (0..k).map(|_| minimal.clone()).collect();
+            if shape == 1 && k > 0 {
+                entries[k - 1].value = RValue::U8(7);
+            }
+            if shape == 2 {
+                for e in entries.iter_mut() {
+                    e.unit = Some(30);
+                    e.value = RValue::U16(0x1234);
+                }
+            }
+            for gw in [None, Some(5u32)] {
+                let m = RMsg {
+                    tid: Hx(vec![1, 2, 3]),
+                    group: 0,
+                    abort: 0,
+                    body: RBody::GetList { client_id: None, server_id: Hx(vec![9]), list_name: None, sensor_time: None, entries: entries.clone(), sig: None, gateway_time: gw },
+                };
+                let body = smlgen::encode_body(&m, &mut rng, &smlgen::Profile::plain());
+                // the value-list TLF is the single-byte list TLF that declares k entries, right after
+                // the four header fields of the list response
+                let sites = smlgen::walk_sites(&body);
+                let Some(site) = sites.iter().find(|s| s.ty == smlgen::TY_LIST && s.depth == 3 && s.len == k) else { continue };
+                for declared in [k + 1, k + 2, 2 * k + 1, 15, 16, 255, 65_535, 0x2000_0000usize + k] {
+                    let mut b = body.clone();
+                    b.splice(site.off..site.off + site.tlf_size, smlgen::tlf(smlgen::TY_LIST, declared, 0));
+                    for follow in [false, true] {
+                        let mut msgs = vec![MsgScn { body: Hx(b.clone()), seal: Seal::Good }];
+                        if follow {
+                            let c = RMsg { tid: Hx(vec![4]), group: 0, abort: 0, body: RBody::Close { sig: None } };
+                            msgs.push(MsgScn { body: Hx(smlgen::encode_body(&c, &mut rng, &smlgen::Profile::plain())), seal: Seal::Good });
+                        }
+                        v.push(Scenario::File(FileScn {
+                            prop: prop.into(),
+                            sub: "resealed".into(),
+                            msgs,
+                            post: vec![],
+                            extra_polls,
+                            notes: vec![format!("msg0:declared-count(entries={},declared={})", k, declared)],
+                        }));
+                    }
+                }
+            }
+        }
+    }
+    v
+}
+
 pub fn enum_corpus(prop: &str, tier: Tier, extra_polls: usize) -> Vec<Scenario> {
     {
-        let mut v = Vec::new();
+        let mut v = declared_count_corpus(prop, extra_polls);
         for (bi, msgs) in base_set().into_iter().enumerate() {
             let base = FileScn { prop: prop.into(), sub: "valid".into(), msgs: msgs.clone(), post: vec![], extra_polls, notes: vec![format!("base:{}", bi)] };
             let total = base.bytes().len();
